@@ -499,7 +499,7 @@ func TestC16(t *testing.T) {
 		}
 	out:
 		r.Extra("lattice_product_size", idx)
-		r.Extra("lattice_product_done_this_shard", done)
+		r.Extra("sum_lattice_product_done", done)
 		r.Exhaustive = true
 	}
 
